@@ -224,26 +224,48 @@ COLLAPSE_SRC = ('if ready then start() notify(queue) end\nif not item.enabled th
 COLLAPSE_WITNESSES = [w(COLLAPSE_SRC, oracle=o, syntax="lua52", collapse_simple_statement=c, sweep=(20, 120)) for c in ("Always", "ConditionalOnly", "FunctionOnly", "Never") for o in ("tree", "comments")]
 COND_COMMENT_WITNESSES = [w('while ( --[[a]] x --[[b]] ) --[[c]] do end\nif --[[d]] (y) then end\nrepeat until ( --[[e]] z )\nwhile ( -- f\n w) do end\nif (a) then end\n', oracle="comments", sweep=(20, 120))]
 SEMI_COMMENT_WITNESSES = [w('local a = b; -- c\n(f or g)()\nlocal d = e; --[[ blk ]]\n(h)()\nx = 1; -- gone\nreturn x; -- last\n', oracle="comments")]
+a26, b30, c26 = "a" * 26, "b" * 30, "c" * 26
+# comments bound to removed parentheses (D17), list items hung a second time (D18, D19), a comment in front of a sorted require (D20)
+PAREN_COMMENT_WITNESSES = [w('local x = ( --[[a]] y --[[b]] ) --[[c]]\nlocal z = ( -- d\n q)\nf(( --[[e]] g))\n', oracle="comments", sweep=(10, 120))]
+REHANG_WITNESSES = [w(f'return {a26} --[[c]], {b30}, {c26}\n', oracle="comments", sweep=(5, 120)),
+                    w(f'local x, y = {a26} -- c\n, {b30}\nx, y = {a26} -- d\n, {b30}\n', oracle="comments", sweep=(5, 120))]
+SORT_COMMENT_WITNESSES = [w('local c = require("c")\n--[[ x ]] local a = require("a")\nlocal b = require("b") -- tb\n', oracle="comments", **SR)]
+# a line comment at a binary operator inside single-line contexts (D21): call arguments, index brackets, numeric for bounds
+BINOP_COMMENT_WITNESSES = [w('foo(a + b * -- comment\n c + d, e)\nfoo(a -- c\n + b)\nlocal t = a[b + -- c\n d]\nfor i = a + -- c\n b, 2 do end\nfoo(a)[b .. -- c\n d] = 1\nfoo((a + -- c\n b) * 2)\nfoo(a and -- why\n b or c)\n', oracle="comments", sweep=(10, 120))]
+# a comment trailing a parenthesised table field value (D24); a line comment between a callee and its arguments (D25)
+FIELD_COMMENT_WITNESSES = [w('local t = { (a --[[c]]), b }\nlocal u = { x = (a -- c\n) }\nlocal v = { [1] = (a --[[d]]) }\nlocal q = { (a -- e\n), b }\n', oracle="comments", sweep=(10, 120))]
+CALL_COMMENT_WITNESSES = [w('a -- c\n (b)\na.b -- d\n (b)\nfoo(a -- e\n (b))\na -- f\n "s"\n', oracle="comments", sweep=(10, 120)),
+                          w('local x = a -- c\n (b)\na -- c\n (b):c()\nlocal y = a.b.c -- d\n (e).f()\n', oracle="tree", sweep=(10, 120))]
+PARAM_COMMENT_WITNESSES = [w('local x = function( -- c\n a) end\nfunction f( -- d\n ) end\nfunction g( -- e\n a, -- f\n ...) return 1 end\n', oracle="comments", sweep=(10, 120))]
+# open findings D22, D23, D27, D28 (known_findings.txt): one witness per finding
+OPEN_COMMENT_FINDINGS = [
+    w('foo(- -- c\n a)\n', oracle="comments"), w('foo(not -- c\n a, b)\n', oracle="comments"), w('local x = # -- c\n a\n', oracle="comments"),     # D22
+    w('foo((a -- c\n))\n', oracle="comments"),                                                                                                        # D23
+    w('a:b -- c\n (d)\n', oracle="comments"),                                                                                                         # D27
+]
+OPEN_C03_FINDINGS = [w('local t = { a -- c\n, -- d\n b }\n', oracle="comments")]                                                                      # D28
 WITNESSES = {
     "C03.condition": COND_COMMENT_WITNESSES, "C02.condition": COND_COMMENT_WITNESSES,
     "C02.stmt": COLLAPSE_WITNESSES, "C01.semicolon": COLLAPSE_WITNESSES[:2] + SEMI_COMMENT_WITNESSES, "C08.block": SEMI_COMMENT_WITNESSES,
-    "C02.": TYPE_WITNESSES, "C03.": TABLE_COMMENT_WITNESSES,
+    "C02.": TYPE_WITNESSES, "C03.": TABLE_COMMENT_WITNESSES, "C03.field_value": FIELD_COMMENT_WITNESSES, "C02.field_value": FIELD_COMMENT_WITNESSES,
     "C01.line_comment": C04_WITNESSES + C10_WITNESSES[:4], "C04.": C04_WITNESSES, "C03.token_text": C04_WITNESSES + C10_WITNESSES, "C11.quote_choice": C04_WITNESSES[:4], "C10.": C10_WITNESSES,
     "C11.": C11_WITNESSES, "C02.call_sugar": C11_WITNESSES[:5], "C03.args_conversion": [w('f( --[[c]] "x")\ng("y" --[[d]])\nh("z") -- e\nk( -- l\n{})\n', oracle="comments", call_parentheses="None")],
     "C01.is_brackets_string": BRACKET_WITNESSES, "C01.index_bracket_string": BRACKET_WITNESSES, "C01.bracket_string": BRACKET_WITNESSES,
-    "C12.": SORT_WITNESSES,
+    "C12.": SORT_WITNESSES + SORT_COMMENT_WITNESSES,
     "C15.": [cli("config_search")], "C20.": [cli("option_carriers")],
     "C14.": [cli("write_only_formatted_text"), cli("check_never_writes")], "C13.": [cli("check_never_writes")], "C17.": [cli("stdin_stdout_only")],
     "C18.": [cli("json_diff_reconstructs"), cli("unified_diff_reconstructs"), cli("check_never_writes")],
     "C01.output_is_printed_ast": LIB_WITNESSES, "C01.verified": LIB_WITNESSES, "C12.sort_iff_enabled": LIB_WITNESSES, "C02.whole_ast": LIB_WITNESSES,
     "C08.": BLOCK_WITNESSES, "C09.": BLOCK_WITNESSES, "C01.semicolon": BLOCK_WITNESSES[-2:], "C01.next_starts": BLOCK_WITNESSES[-2:],
-    "C05.": EXPR_WITNESSES,
+    "C05.": EXPR_WITNESSES + BINOP_COMMENT_WITNESSES,
+    "C01.bracket_string_visible_hanging": BRACKET_WITNESSES + BINOP_COMMENT_WITNESSES,
     "C01.double_minus_guard": EXPR_WITNESSES[1:3],
 }
 
-C01_BOUNDED = [x for x in COLLAPSE_WITNESSES if x["oracle"] == "comments"] + BRACKET_WITNESSES
-C02_BOUNDED = TYPE_WITNESSES + [x for x in COLLAPSE_WITNESSES if x["oracle"] == "tree"]
-C03_BOUNDED = TABLE_COMMENT_WITNESSES + COND_COMMENT_WITNESSES + SEMI_COMMENT_WITNESSES + [x for x in COLLAPSE_WITNESSES if x["oracle"] == "comments"][:2]
+C01_BOUNDED = [x for x in COLLAPSE_WITNESSES if x["oracle"] == "comments"] + BRACKET_WITNESSES + REHANG_WITNESSES[1:] + BINOP_COMMENT_WITNESSES + CALL_COMMENT_WITNESSES[:1] + PARAM_COMMENT_WITNESSES + OPEN_COMMENT_FINDINGS
+C02_BOUNDED = TYPE_WITNESSES + [x for x in COLLAPSE_WITNESSES if x["oracle"] == "tree"] + CALL_COMMENT_WITNESSES[1:]
+C03_BOUNDED = (TABLE_COMMENT_WITNESSES + COND_COMMENT_WITNESSES + SEMI_COMMENT_WITNESSES + [x for x in COLLAPSE_WITNESSES if x["oracle"] == "comments"][:2]
+               + PAREN_COMMENT_WITNESSES + REHANG_WITNESSES[:1] + SORT_COMMENT_WITNESSES + FIELD_COMMENT_WITNESSES + OPEN_C03_FINDINGS)
 def nest(n, open_, close): return "local v = " + "".join(open_ for _ in range(n)) + "1" + "".join(close for _ in range(n)) + "\n"
 TIME_WITNESSES = [dict(w(nest(24, "f({ ", " })"), oracle="parse"), time_limit=20), dict(w(nest(22, "f(", ")"), oracle="parse"), time_limit=20),
                   dict(w(nest(40, "{ ", " }"), oracle="parse"), time_limit=20), dict(w("local v = " + " + ".join(f"a{i}" for i in range(400)) + "\n", oracle="parse"), time_limit=20)]
